@@ -28,9 +28,16 @@
       output ((v m0' m1' label) ...) — the three integers on the wire and the result
    6  CO single transfer (COSenderXfer / COReceiverXfer) on byte strings:
       (6 (mask0 byte ...) (mask1 byte ...) (receiver mask byte ...) bit (m0 byte ...) (m1 byte ...))
-      output ((e0 byte ...) (e1 byte ...) (received byte ...))                 *)
+      output ((e0 byte ...) (e1 byte ...) (received byte ...))
+   7  ot/label.go, every helper on one input (OT/LabelWire.v):
+      (7 (D0 D1) (O0 O1) tweak i (data byte ...)), output = the list of results in
+      the order of harness/c06ext.go c06LabelCase
+   8  wire format of a CO session (ot/co.go) and the deriveMask inputs:
+      (8 (name byte ...) (Ax Ay) ((X Y) ...) (((Z0 Z1) (O0 O1)) ...) ((x y index) ...))
+      output (((dir (byte ...)) ...) ((preimage byte ...) ...))                 *)
 From Coq Require Import ZArith NArith List Bool Arith.
 From Mpc Require Import Gen.Consts Base.Sx Base.Label Base.Aes OT.Iknp OT.Cot OT.Co OT.Rsa.
+From Mpc Require OT.LabelWire.
 Import ListNotations.
 Local Open Scope nat_scope.
 
@@ -186,6 +193,34 @@ Definition run_co_xfer (inp : sx) : sx :=
   let e := xfer_encrypt (getLN (nthx 1 inp)) (getLN (nthx 2 inp)) (getLN (nthx 5 inp)) (getLN (nthx 6 inp)) in
   SL [ofLN (fst e); ofLN (snd e); ofLN (xfer_decrypt (getLN (nthx 3 inp)) (getB (nthx 4 inp)) (fst e) (snd e))].
 
+(* ---- ot/label.go helpers ------------------------------------------------------ *)
+Definition lw_of_sx (s : sx) : Mpc.OT.LabelWire.Label := Mpc.OT.LabelWire.mkLabel (getN (nthx 0 s)) (getN (nthx 1 s)).
+Definition sx_of_lw (l : Mpc.OT.LabelWire.Label) : sx := SL [ofN (Mpc.OT.LabelWire.D0 l); ofN (Mpc.OT.LabelWire.D1 l)].
+
+Definition run_label (inp : sx) : sx :=
+  let l := lw_of_sx (nthx 1 inp) in
+  let o := lw_of_sx (nthx 2 inp) in
+  let t := getN (nthx 3 inp) in
+  let i := getnat (nthx 4 inp) in
+  let bs := getLN (nthx 5 inp) in
+  SL [ofB (Mpc.OT.LabelWire.Equal l o); ofB (Mpc.OT.LabelWire.Equal l l); sx_of_lw (Mpc.OT.LabelWire.NewTweak t); ofB (Mpc.OT.LabelWire.GetS l);
+      sx_of_lw (Mpc.OT.LabelWire.SetS l true); sx_of_lw (Mpc.OT.LabelWire.SetS l false); sx_of_lw (Mpc.OT.LabelWire.Mul2 l); sx_of_lw (Mpc.OT.LabelWire.Mul4 l);
+      sx_of_lw (Mpc.OT.LabelWire.Xor l o); sx_of_lw (Mpc.OT.LabelWire.And l o); ofLN (Mpc.OT.LabelWire.GetData l);
+      sx_of_lw (Mpc.OT.LabelWire.SetData (firstn 16 bs)); sx_of_lw (Mpc.OT.LabelWire.SetBytes bs); sx_of_lw (Mpc.OT.LabelWire.NewLabel bs);
+      match Mpc.OT.LabelWire.Bit l i with Some b => ofB b | None => sx_err 7 end;
+      sx_of_lw (Mpc.OT.LabelWire.SetBit l i false); sx_of_lw (Mpc.OT.LabelWire.SetBit l i true);
+      ofN (Mpc.OT.LabelWire.val l)].
+
+(* ---- CO wire format ------------------------------------------------------------ *)
+Definition run_co_wire (inp : sx) : sx :=
+  let name := getLN (nthx 1 inp) in
+  let A := pair_of_sx (nthx 2 inp) in
+  let pts := map pair_of_sx (getL (nthx 3 inp)) in
+  let cts := map (fun c => (lw_of_sx (nthx 0 c), lw_of_sx (nthx 1 c))) (getL (nthx 4 inp)) in
+  SL [SL (map (fun m => SL [ofB (fst m); ofLN (snd m)]) (Mpc.OT.LabelWire.co_session_msgs name A pts cts));
+      SL (map (fun p => ofLN (Mpc.OT.LabelWire.mask_preimage (getN (nthx 0 p)) (getN (nthx 1 p)) (getN (nthx 2 p))))
+              (getL (nthx 5 inp)))].
+
 Definition run_c06 (inp : sx) : sx :=
   let tag := getZ (nthx 0 inp) in
   if Z.eqb tag 1 then run_iknp false inp
@@ -194,4 +229,6 @@ Definition run_c06 (inp : sx) : sx :=
   else if Z.eqb tag 3 then run_co inp
   else if Z.eqb tag 4 then run_rsa inp
   else if Z.eqb tag 6 then run_co_xfer inp
+  else if Z.eqb tag 7 then run_label inp
+  else if Z.eqb tag 8 then run_co_wire inp
   else sx_err 1.
